@@ -39,6 +39,7 @@ import (
 type target struct {
 	put    func(*object.Object) error
 	mark   func(cid.ID, []oid.ID) error
+	del    func(cid.ID, []oid.ID) error
 	search func(cid.ID, []objectcore.SearchFilter, []string, *objectcore.SearchCursor, uint16) ([]client.SearchResultItem, []byte, error)
 	sel    func(cid.ID, object.SearchFilters) ([]oid.Address, error)
 	close  func()
@@ -60,6 +61,10 @@ func openDB(ep *stor.Epoch) (*target, error) {
 			_, err := db.MarkGarbage(c, ids, meta.GarbageMarkDefault)
 			return err
 		},
+		del: func(c cid.ID, ids []oid.ID) error {
+			_, _, err := db.Delete(c, ids)
+			return err
+		},
 		search: db.Search,
 		sel:    db.Select,
 		close:  func() { _ = db.Close(); os.RemoveAll(dir) },
@@ -79,6 +84,7 @@ func openShard(ep *stor.Epoch) (*target, error) {
 	return &target{
 		put:    func(o *object.Object) error { return sh.Put(o, nil) },
 		mark:   func(c cid.ID, ids []oid.ID) error { return sh.MarkGarbage(c, ids, meta.GarbageMarkDefault) },
+		del:    sh.Delete,
 		search: sh.Search,
 		sel:    func(c cid.ID, fs object.SearchFilters) ([]oid.Address, error) { return sh.Select(c, fs) }, //nolint:staticcheck
 		close:  func() { _ = sh.Close(); os.RemoveAll(dir) },
@@ -109,6 +115,25 @@ func load(tg *target, c *searchgen.Corpus, ep *stor.Epoch) {
 		}
 		if err := tg.mark(cnr, ids); err != nil {
 			ev.Inconclusive("harness: mark garbage: %v", err)
+		}
+	}
+	// physical removal (what GC does with marked / tombstoned / expired objects, or a
+	// direct removal): one Delete call per object or one call for all
+	if len(c.Deleted) > 0 {
+		var ids []oid.ID
+		for _, d := range c.Deleted {
+			ids = append(ids, searchgen.ExtID(c.Specs[d].ID))
+		}
+		if len(ids)%2 == 0 {
+			if err := tg.del(cnr, ids); err != nil {
+				ev.Inconclusive("harness: delete: %v", err)
+			}
+		} else {
+			for _, id := range ids {
+				if err := tg.del(cnr, []oid.ID{id}); err != nil {
+					ev.Inconclusive("harness: delete: %v", err)
+				}
+			}
 		}
 	}
 	ep.Set(c.Epoch)
